@@ -91,8 +91,11 @@ def cases(draw):
         big = st.one_of(st.integers(0, 2 ** 31 - 1), st.integers(0, 2 ** 256 - 1), st.sampled_from([0, 1, 16, 17, 2 ** 255, 2 ** 256 - 1, 2 ** 64, 2 ** 128 - 1]))
         return (k, draw(st.sampled_from(['add', 'sub'])), draw(big), draw(big), draw(st.sampled_from(['dec', 'hex'])))
     if k == 'addsub-group':
-        g = draw(st.sampled_from([secp.N, secp.P, 2 ** 255 - 19, 0xfffe, 1000003]))
-        return (k, draw(st.sampled_from(['add', 'sub'])), draw(st.integers(0, g - 1)), draw(st.integers(0, g - 1)), g)
+        g = draw(st.sampled_from([secp.N, secp.P, 2 ** 255 - 19, 0xfffe, 1000003, 17, 97, 2 ** 256 - 189]))
+        # operands inside the group and (one time in three) arbitrary 256-bit values that have to be reduced first
+        hi = g - 1 if draw(st.integers(0, 2)) else 2 ** 256 - 1
+        return (k, draw(st.sampled_from(['add', 'sub'])), draw(st.one_of(st.integers(0, hi), st.sampled_from([0, g - 1, min(hi, g), min(hi, 2 * g), min(hi, 2 * g + 1), hi]))),
+                draw(st.one_of(st.integers(0, hi), st.sampled_from([0, 1, g - 1, min(hi, g), min(hi, 3 * g - 1), hi]))), g)
     if k == 'jacobi':
         # n: uniform, small, and structured (odd part x power of two with every exponent 0..250 - the algorithm strips twos -, 2^e +- 1);
         # k: the default (field size) and odd moduli of every residue mod 8, prime and composite
